@@ -595,11 +595,14 @@ def run(ctx):
 
 
 def replay(ctx, path):
-    r = json.load(open(path))
+    import replaylib
+    r = replaylib.load("C04", path)
+    if "op" not in r:
+        return replaylib.obligations("C04", run, r, path)
     exe = build_harness(ctx, "asan")
-    if exe is None or "op" not in r:
-        print("nothing to replay (no op line in %s)" % path)
-        return 1
+    if exe is None:
+        print("build failed")
+        return 2
     res = run_chunk(exe, [r["op"]])
     for ln, o, err in res:
         print("op:", (ln or "")[:300])
